@@ -39,7 +39,7 @@ ProbeVerdict(x) ==
     Bind(Run(NProg(x.prog), c1[1], c1[2], x.env).log, LAMBDA log :
     Bind(EvalLog(x, log, c1[2]), LAMBDA W :
     Bind(<<Mismatch(x, W.A, x.impl), Mismatch(x, W.A, x.ref),
-           FirstDiff(Canon(x.reflog), Canon(log))>>, LAMBDA c2 :
+           OrderDiff(NProg(x.prog), x.reflog, log)>>, LAMBDA c2 :
     LET mi == c2[1]
         mr == c2[2]
         df == c2[3]
@@ -98,7 +98,28 @@ ClassVerdict(x) ==
                                 IF i = 0 THEN 0 ELSE F[i - 1] + x.props[i].cnt
                           IN F[Len(x.props)]]
 
-Verdict(x) == IF x.kind = "probe" THEN ProbeVerdict(x) ELSE ClassVerdict(x)
+(***************************************************************************)
+(* kind = "order": the reference executor's own log on one of C03's random *)
+(* group trees (conditions, iteration, sub-groups, pre/post, update_nnps); *)
+(* data layout of TraceAccelEval (1-D, neighbours: |dx| <= 1).             *)
+(***************************************************************************)
+AbsV(v) == IF v < 0 THEN -v ELSE v
+NbrsC03(A) ==
+    [t \in UNION {{<<d, s, i>> : i \in 0..(A[d].nall - 1)} : d \in DOMAIN A, s \in DOMAIN A} |->
+        {j \in 0..(A[t[2]].nall - 1) : AbsV(A[t[1]].pos[t[3] + 1] - A[t[2]].pos[j + 1]) <= 1}]
+OrderVerdict(x) ==
+    IF Failed(x) THEN [id |-> x.id, kind |-> "order", ok |-> FALSE, diff |-> -1, vcok |-> FALSE, n |-> 0]
+    ELSE Bind(Run(NProg(x.prog), Arr0(x), NbrsC03(Arr0(x)), x.env), LAMBDA r :
+         LET df == OrderDiff(NProg(x.prog), x.log, r.log)
+         IN [id |-> x.id, kind |-> "order", ok |-> df = 0, diff |-> df,
+             vcok |-> \A k \in DOMAIN x.vc :
+                        x.vc[k] = (IF \E i \in DOMAIN r.vc : Key(i) = k
+                                   THEN r.vc[CHOOSE i \in DOMAIN r.vc : Key(i) = k] ELSE 0),
+             n |-> Len(x.log)])
+
+Verdict(x) == CASE x.kind = "probe" -> ProbeVerdict(x)
+                [] x.kind = "order" -> OrderVerdict(x)
+                [] OTHER -> ClassVerdict(x)
 
 TInit == tid \in 1..Len(Traces) /\ TLCSet(tid, Verdict(Traces[tid]))
 TNext == FALSE /\ UNCHANGED tid
